@@ -638,8 +638,12 @@ def run(repo, rep, tier):  # noqa: F811 -- round-6 shape rules appended to the r
         return
     from ..core import round6 as _r6
     _r6.nullability_through_annotated(repo, rep, "R05.14")
+    _r6.instance_type_state(repo, rep, "R20.11")
 
 
 _ADDR6A = ' Borrowed: R05.14 (nullability of Annotated[Optional[X], ...] positions).'
 EXPLANATION += _ADDR6A
 LEVEL_TEXT += _ADDR6A
+_ADDR6B = ' R20.11: every write of Instance.type outside update_type is followed by update_type (origin_type and the dataclass builder with its type arguments are derived facts; typestate pairing).'
+EXPLANATION += _ADDR6B
+LEVEL_TEXT += _ADDR6B
